@@ -669,6 +669,19 @@ static void measure_case(CaseCtx& c, CasePlan& pl)
     finish("accepted", true);
 }
 
+static bool known_check(const std::string& n)
+{
+    static const char* names[] = {"no_crash", "rejection_is_std_exception", "sizes_consistent", "radii_strictly_increasing",
+                                  "radii_endpoints_exact", "angles_uniform", "angles_antipodal", "fine_nodes_are_midpoints",
+                                  "nested_sizes", "nested_values", "reported_levels_admissible", "coarse_level_is_subgrid",
+                                  "level_cap_respected", "setup_levels_consistent", "setup_grid_matches_ctor", "roundtrip_loads",
+                                  "roundtrip_same_shape", "roundtrip_excess_error", "damaged_file_grid_is_valid"};
+    for (const char* k : names)
+        if (n == k)
+            return true;
+    return false;
+}
+
 // ---- records: measuring child -> supervisor
 static void ship_observation(const Obs& o)
 {
@@ -709,12 +722,16 @@ static void run_case(CaseCtx& c)
     c.announce(pl.cls);
 
     // everything that touches the library happens in the measuring child
+    struct timespec ts0, ts1;
+    clock_gettime(CLOCK_MONOTONIC, &ts0);
     ChildOutcome mo = c18::run_in_child([&] {
         measure_case(c, pl);
         ship_observation(c.obs);
     }, 900);
+    clock_gettime(CLOCK_MONOTONIC, &ts1);
+    o.info.num("wall_ms", (ts1.tv_sec - ts0.tv_sec) * 1e3 + (ts1.tv_nsec - ts0.tv_nsec) * 1e-6);
     std::string last_phase = pl.cls;
-    bool complete          = false;
+    bool complete = false, garbled = false;
     for (auto& f : c18::parse_records(mo.all)) {
         if (f[0] == "A" && f.size() >= 2)
             last_phase = f[1];
@@ -723,6 +740,10 @@ static void run_case(CaseCtx& c)
         else if (f[0] == "I" && f.size() >= 3)
             o.info.raw(f[1], f[2]);
         else if (f[0] == "C" && f.size() >= 5) {
+            if (!known_check(f[1])) { // a measuring child with a damaged heap may report anything
+                garbled = true;
+                continue;
+            }
             const std::string& v = f[2];
             o.checks[f[1]] = v == "NaN" ? NAN : (v == "Infinity" ? INFINITY : (v == "-Infinity" ? -INFINITY : strtod(v.c_str(), nullptr)));
             o.counts[f[1]] = atoll(f[3].c_str());
@@ -732,12 +753,21 @@ static void run_case(CaseCtx& c)
         else if (f[0] == "Z")
             complete = true;
     }
-    if (mo.kind == ChildOutcome::OK && complete)
+    if (mo.kind == ChildOutcome::OK && complete && !garbled) {
+        o.check("measurement_completed", 0.0, pl.cls);
         return;
-    if (mo.kind == ChildOutcome::STD_EXCEPTION || mo.kind == ChildOutcome::OTHER_EXCEPTION)
-        throw std::runtime_error("measuring child: " + mo.type + ": " + mo.what + " [" + last_phase + "]");
+    }
+    if (mo.kind == ChildOutcome::STD_EXCEPTION || mo.kind == ChildOutcome::OTHER_EXCEPTION) {
+        // a call that returned in the probe child threw when repeated (or a later library call threw): observation
+        o.check("measurement_completed", 1.0, last_phase + "/threw/" + mo.type);
+        o.info.str("measuring_process_exception", mo.type + ": " + mo.what).str("measuring_process_phase", last_phase);
+        pl.sig.str("outcome", "exception-while-measuring");
+        o.top.obj("sig", pl.sig);
+        o.top.b("nontrivial", false);
+        return;
+    }
     // the measuring child died (or stopped reporting): an observation of this case
-    std::string death = mo.kind == ChildOutcome::CRASH ? mo.type : "incomplete-report";
+    std::string death = mo.kind == ChildOutcome::CRASH ? mo.type : (garbled ? "garbled-report" : "incomplete-report");
     o.checks["no_crash"] = 1.0;
     o.counts["no_crash"] += 1;
     // key: input class + kind of death; the phase it happened in is recorded in info (after a silent out-of-bounds write
